@@ -359,6 +359,10 @@ func (c1 int64Const) binaryOp(op ast.OperatorType, c2 constant) (constant, error
 		if n2 == 0 {
 			return nil, errDivisionByZero
 		}
+		if n1 == math.MinInt64 && n2 == -1 {
+			// The quotient, 1<<63, is not representable as int64.
+			return n1.asInt().binaryOp(op, n2.asInt())
+		}
 		return n1 / n2, nil
 	case ast.OperatorModulo:
 		if n2 == 0 {
